@@ -59,6 +59,11 @@ class Lens:
             if l[0] != "cmp":
                 continue
             a, k = norm_len(df.canon(l[2], self.b)), df.strip(l[3])
+            if k[0] != "const":
+                kv = df._num(k)
+                if kv is None or kv.denominator != 1:
+                    continue
+                k = ("const", int(kv))
             if k[0] != "const" or not isinstance(k[1], int) or isinstance(k[1], bool):
                 continue
             if a != want:
